@@ -42,7 +42,9 @@ def quiet (cfg : Config) : Expr → Bool
       quiets cfg vs && okChildren cfg "BoolOp" "values" vs
         && !shouldTransform cfg "BoolOp" "op" (if isAnd then "And" else "Or")
   | .unary _ _ e => quiet cfg e && okChild cfg "UnaryOp" "operand" e
-  | .binop _ _ l r => quiet cfg l && quiet cfg r && okChild cfg "BinOp" "left" l && okChild cfg "BinOp" "right" r
+  | .binop _ op l r =>
+      !(op == "MatMult" && shouldTransform cfg "BinOp" "op" "MatMult")
+        && quiet cfg l && quiet cfg r && okChild cfg "BinOp" "left" l && okChild cfg "BinOp" "right" r
   | .compare _ l ops rs =>
       !(ops.length > 1) && quiet cfg l && quiets cfg rs && okChild cfg "Compare" "left" l
         && okChildren cfg "Compare" "comparators" rs
@@ -513,7 +515,7 @@ def acceptsE (cfg : Config) : Expr → Bool
   | .keyword _ _ _ v => acceptsE cfg v
   | .boolop i a vs => quiet cfg (.boolop i a vs)
   | .unary _ _ e => acceptsE cfg e
-  | .binop _ _ l r => acceptsE cfg l && acceptsE cfg r
+  | .binop _ op l r => !(op == "MatMult" && shouldTransform cfg "BinOp" "op" "MatMult") && acceptsE cfg l && acceptsE cfg r
   | .compare _ l ops rs => !(ops.length > 1) && acceptsE cfg l && acceptsEs cfg rs
   | .ifexp i t b e => quiet cfg (.ifexp i t b e)
   | .lambda i as b => quiet cfg (.lambda i as b)
